@@ -3,6 +3,7 @@
 Require Import SF.Prelude SF.PySlice SF.IndexBij Proofs.IndexBijFacts.
 
 Section Main.
+  Set Default Proof Using "All".
   Variable C : Type.
   Variable ceqb : C -> C -> bool.
   Variable of_Z : Z -> C.
@@ -67,7 +68,7 @@ Section Main.
     M_contains ceqb to_Z (mk_index l (Some m)) k = S_contains ceqb l k.
   Proof.
     intros W F. unfold M_contains, S_contains. cbn [ix_map].
-    rewrite (am_get_index C ceqb ceqb_spec m (fst k) W), F, (index_of_memb C ceqb). reflexivity.
+    rewrite (am_get_index C ceqb ceqb_spec m (fst k) W), F, (index_of_memb C ceqb ceqb_spec). reflexivity.
   Qed.
 
   (* whole-object refinement: Index(labels) observed through every reader equals the specification,
@@ -195,7 +196,7 @@ Section Main.
     M_contains ceqb to_Z (M_index_auto of_Z n) k = S_contains ceqb (map of_Z (iota n)) k.
   Proof.
     unfold auto_key_ok, M_contains, S_contains, M_index_auto, key_int. cbn [ix_map ix_labels].
-    unfold zlen. rewrite map_length, iota_length, (index_of_memb C ceqb).
+    unfold zlen. rewrite map_length, iota_length, (index_of_memb C ceqb ceqb_spec).
     destruct k as [c t]. cbn [fst snd].
     destruct (to_Z c) as [z|] eqn:Ez.
     - apply of_to in Ez as Hc. subst c. rewrite index_of_auto. destruct t.
